@@ -454,6 +454,34 @@ fn whitespace(cfg: &Cfg) -> Report {
             r.sample(|| format!("whitespace bytes={:?}", all[i]));
         }
     }));
+    // planted runs: `lead` whitespace bytes, a body, `trail` whitespace bytes, for every pair of run lengths
+    // (word- or block-wise fast paths have their cases at 8/16/32 bytes) and every ASCII whitespace byte,
+    // plus runs that alternate two kinds
+    let maxrun = cfg.by(9, 34, 70);
+    rep.merge(par_for(cfg, maxrun + 1, |lead, r| {
+        for trail in 0..=maxrun {
+            if cfg.miri() && !(trail % 8 <= 1) {
+                continue;
+            }
+            for w in [b' ', b'\t', b'\n', 0x0Cu8, b'\r'] {
+                for body in [&b"x"[..], b"x y", b"", b"\x0Bx\x0B", "ñ".as_bytes()] {
+                    let mut h = vec![w; lead];
+                    h.extend_from_slice(body);
+                    h.extend(std::iter::repeat(w).take(trail));
+                    ws_bytes(r, &h);
+                    ws_str(r, core::str::from_utf8(&h).unwrap());
+                    if w == b' ' && lead + trail > 0 {
+                        // alternate with a second kind
+                        let mut h2: Vec<u8> = (0..lead).map(|i| if i % 2 == 0 { b' ' } else { b'\t' }).collect();
+                        h2.extend_from_slice(body);
+                        h2.extend((0..trail).map(|i| if i % 3 == 0 { b'\n' } else { b' ' }));
+                        ws_bytes(r, &h2);
+                    }
+                }
+            }
+        }
+        r.ev("planted-whitespace-runs");
+    }));
     // non-ASCII whitespace must be kept
     let ualpha = [" ", "\t", "x", "\u{85}", "\u{a0}", "\u{2003}", "\u{c}"];
     let us = strings_upto(&ualpha, cfg.by(1, 3, 4));
@@ -579,7 +607,7 @@ pub fn run(cfg: &Cfg, trim: bool) -> (&'static str, Report, String, String) {
     let exh = format!(
         "all {} haystacks (<= {} chars) x {} needles (<= {} chars) over {{a,b,ñ}}; all {} byte haystacks x {} needles over {{0x61,0x62,0xFF}}; {} x {} strings over {{ñ,ó,個,倀,x}}; {} seeded random (haystack <= 64, one in eight <= 300, needle <= 8); planted: filler haystacks of every length 0..={} x needle {{ab,a,abc,ñb}} at every offset x a near miss at every earlier offset{}",
         hs.len(), hl, ns.len(), nl, bhs.len(), bns.len(), mhs.len(), mns.len(), nrand, maxl,
-        if trim { "; whitespace: every byte 0..=255 as prefix/suffix/both, all strings over {\\t,\\n,\\x0B,\\x0C,\\r,' ',x,\\0} and over non-ASCII whitespace" } else { "" }
+        if trim { "; whitespace: every byte 0..=255 as prefix/suffix/both, all strings over {\\t,\\n,\\x0B,\\x0C,\\r,' ',x,\\0} and over non-ASCII whitespace; planted runs of every length 0..=34 (thorough 70) of each ASCII whitespace byte before and after 5 bodies" } else { "" }
     );
     if trim {
         ("C05", rep, exh, "one evaluation = one konst call (starts_with/ends_with/strip_prefix/strip_suffix/trim_*_matches/trim* on str and bytes, pattern kinds &str, char, [u8], [u8;N], str-on-bytes) compared with the std method (trim_matches = trim_end_matches∘trim_start_matches; whitespace = trim_ascii*), results compared by value and position; non-trivial = distinct (haystack,needle) where the needle is a proper prefix or suffix of the haystack, or whitespace inputs where something is trimmed and something remains".into())
